@@ -13,7 +13,7 @@ import shutil
 import subprocess
 import sys
 import uuid
-from concurrent.futures import ThreadPoolExecutor
+from concurrent.futures import ProcessPoolExecutor
 
 import engine
 
@@ -81,6 +81,10 @@ def run_mutant(m, props=None):
         shutil.rmtree(d, ignore_errors=True)
 
 
+def _run_one(arg):
+    return run_mutant(arg[0], arg[1])
+
+
 def corpus():
     return [load(p) for p in sorted(glob.glob(os.path.join(MUT_DIR, "*.json")))]
 
@@ -89,8 +93,8 @@ def run_corpus(prop):
     """thorough tier: every mutant expecting `prop` must be caught by prop's rules"""
     ms = [m for m in corpus() if prop in (m.get("expect") or []) or prop in (m.get("quiet") or [])]
     results = []
-    with ThreadPoolExecutor(max_workers=8) as ex:
-        for r in ex.map(lambda m: run_mutant(m, [prop]), ms):
+    with ProcessPoolExecutor(max_workers=12) as ex:
+        for r in ex.map(_run_one, [(m, [prop]) for m in ms]):
             results.append(r)
     return results
 
@@ -109,8 +113,8 @@ if __name__ == "__main__":
             props = list(ALL_PROPS)
     ms = corpus() if names == "all" else [load(n) for n in names.split(",")]
     results_all = []
-    with ThreadPoolExecutor(max_workers=8) as ex:
-        for r in ex.map(lambda m: run_mutant(m, props if props else (ALL_PROPS if names != "all" else None)), ms):
+    with ProcessPoolExecutor(max_workers=14) as ex:
+        for r in ex.map(_run_one, [(m, props if props else (ALL_PROPS if names != "all" else None)) for m in ms]):
             print("%-40s %s caught=%s missed=%s" % (r["name"], r["status"][:200], {k: len(v) for k, v in r["caught"].items()}, r["missed"]))
             for k, v in r["caught"].items():
                 for key in v[:4]:
